@@ -335,6 +335,26 @@ def canonicalNQuadsWith (dv : Deviations) (H : Str → Str) (dataset : List Quad
 def canonicalNQuads (H : Str → Str) (dataset : List Quad) : Option Str :=
   canonicalNQuadsWith Deviations.none H dataset
 
+/-! ### the other legal order of ties
+
+The Recommendation orders the hash path list of step 5.3 "by hash" and says nothing about equal
+hashes.  `canonicalNQuads` keeps equal hashes in the order of the identifier list; the variant below
+processes every identifier list backwards, i.e. resolves every tie the other way round.  Both are
+instances of the Recommendation; they give the same document whenever ties only occur between blank
+nodes exchanged by an automorphism.  (Used by the drivers to detect datasets on which RDFC-1.0 does
+not determine the output: finding C05-rdfc10-ambiguous-tie.) -/
+
+def step5RevTies (H : Str → Str) (fuel : Nat) (st : State) : Option State :=
+  foldOpt (fun st e => (step52 Deviations.none H st fuel e.2.reverse).map (step53 st)) st (sortBy (·.1) st.hashToBnodes)
+
+def canonicalNQuadsRevTies (H : Str → Str) (dataset : List Quad) : Option Str :=
+  if !dataset.all isRdfQuad then none else
+  let st : State := ⟨step2 Deviations.none dataset, [], IdIssuer.fresh "c14n".toList⟩
+  let st := step4 (step3 H st)
+  match step5RevTies H (st.bnodeToQuads.length + 2) st with
+  | none => none
+  | some st => some (sortBy id ((dataset.map (relabelQuad st.canonicalIssuer.issued)).map (nquad Cnq.nqTerm))).flatten
+
 /-
 Points I could not re-verify offline, and how they are resolved:
  * canonical N-Quads escaping (ECHAR for BS HT LF FF CR `"` `\`; `\uXXXX`, uppercase hex, for the
